@@ -14,6 +14,10 @@
         forall|u: UUID| #[trigger] self.db().trackers.contains_key(u) && self.db().trackers[u].confirmed && !self.reorged().contains(u)
             ==> self.db().trackers[u].height as int <= self.idx().back_height()
     }
+    pub open spec fn heights_ok_except(&self, ex: Seq<UUID>) -> bool {
+        forall|u: UUID| #[trigger] self.db().trackers.contains_key(u) && self.db().trackers[u].confirmed && !self.reorged().contains(u) && !ex.contains(u)
+            ==> self.db().trackers[u].height as int <= self.idx().back_height()
+    }
     // Responder invariant.  Only facts every component preserves on the shared database may be assumed at
     // an entry point (foreign keys, heights); `reorged ⊆ trackers` is NOT one of them (see finding F12).
     pub open spec fn rinv(&self) -> bool {
@@ -22,4 +26,15 @@
         &&& self.carrier.inner.wf()
         &&& self.db().fk()
         &&& self.heights_ok()
+    }
+    // what the Gatekeeper needs from the shared database (its users mirror; blob sizes within the transport limit)
+    pub open spec fn gk_ok(&self) -> bool {
+        &&& self.gatekeeper.registered_users.inner@ =~= self.db().users
+        &&& forall|u: UUID| #[trigger] self.db().appts.contains_key(u) ==> self.db().appts[u].blob.len() <= MAX_BLOB
+    }
+    // A1 (ledger bound): refunding any set of a user's held appointments cannot overflow their balance
+    pub open spec fn ledger_bounded(&self) -> bool {
+        forall|list: Seq<UUID>, w: UserId| #![trigger refund_total(self.db().appts, list, w, list.len() as int)]
+            list.no_duplicates() && (forall|i: int| 0 <= i < list.len() ==> self.db().appts.contains_key(#[trigger] list[i])) && self.db().users.contains_key(w)
+            ==> self.db().users[w].available_slots + refund_total(self.db().appts, list, w, list.len() as int) <= u32::MAX
     }
